@@ -94,6 +94,8 @@ type Run struct {
 	clock    int
 	env      *Env
 	sleepLog []Value
+	bufGen          map[*Value]*Backing
+	bufResetPending map[*Value]bool
 
 	// results
 	outcome   Outcome
